@@ -377,3 +377,46 @@ func genC20(tier string, rng *Rng) []Case {
 	}
 	return out
 }
+
+
+// sequences of requests against ONE server (routing must not depend on what came before)
+func genC01Seq(tier string, rng *Rng) []Case {
+	var out []Case
+	n := 150
+	if tier == "thorough" {
+		n = 3000
+	}
+	for i := 0; i < n; i++ {
+		nr := 2 + rng.Intn(4)
+		rs := make([]Rule, nr)
+		for j := range rs {
+			rs[j] = genRuleC01(rng, j)
+			rs[j].Type = 1
+			if rng.Chance(60, 100) {
+				rs[j].Methods = c01Methods[2+rng.Intn(len(c01Methods)-2)]
+			}
+		}
+		var ops []Op
+		ops = append(ops, Op{Kind: "script", Script: scriptFor(rs)})
+		target := rng.Pick(c01Targets)
+		host := rng.Pick([]string{"h1", "h2", "h1:80"})
+		for k := 2 + rng.Intn(4); k > 0; k-- {
+			q := Req{Method: rng.Pick(c01ReqMethods), Host: host, Target: target}
+			if rng.Chance(25, 100) {
+				q.Host = rng.Pick([]string{"h1", "h2", "h1:80"})
+			}
+			if rng.Chance(20, 100) {
+				q.Target = rng.Pick(c01Targets)
+			}
+			if rng.Chance(30, 100) {
+				q.Hdrs = append(q.Hdrs, KV{"X-Forwarded-Proto", rng.Pick([]string{"https", "http"})})
+			}
+			if q.Method == "POST" || q.Method == "PUT" {
+				q.Body = "b"
+			}
+			ops = append(ops, Op{Kind: "req", Req: q})
+		}
+		out = append(out, cacheCase{CacheCase{Retries: 0, Rules: rs, Caches: nil, Base: cacheBase, Ops: ops}})
+	}
+	return out
+}
